@@ -8,7 +8,8 @@ import IprModel.Seq
   delegation (`Expr_stmt::type() = expr().type()` …) — the operand whose own state the answer depends on.
   The state of a link is a small code: `0` = never set; the last code = set to a completely built target; for a link
   of arity 3 code `1` = set to a target that is itself incomplete (an expression whose type was never set, a Mapping
-  without result).  Every accessor reads at most one link; its answer is a function of that link's code alone.
+  without result).  Every accessor reads at most one link; its answer is a function of that link's code (which outcome)
+  and target (which node) alone.
 
   The table `kinds` is written by hand from include/ipr/interface and include/ipr/impl (line numbers per family below).
   Field names are those printed by the universal observer (harness/observe.hxx).
@@ -48,7 +49,7 @@ structure KindSpec where
   name : String
   links : List LinkSpec
   rows : List (String × Sem)
-  deriving Repr
+  deriving DecidableEq, Repr
 
 /-- State of one link: its code and the identity of the node it was set to. -/
 structure LinkVal where
@@ -101,18 +102,31 @@ def part (arity : Nat) (l : Nat) (sub : String) : Sem := .on l (.err :: List.rep
 def operandDeep (l : Nat) (sub : String) : Sem := .on l [.err, .tgt sub]
 def operandSelf (l : Nat) : Sem := .on l [.tgt "", .tgt ""]
 
-/-! ### Rendering (what the driver prints; the probe prints the same tokens) -/
+/-! ### Rendering (what the driver prints; the probe prints the same tokens)
 
-def Out.render (linkName : String) : Out → String
-  | .err => "!L"
+The printed token is a function of `Sem.eval` — the definition the theorems of IprProps/C14.lean are about — and of the
+name of the link read: `!L` a refusal, `-` an empty Optional, `$link[.part]` the node the link was last set to (or a
+part of it), `*` a value that depends on no link. -/
+
+def Val.render (linkName : String) : Val → String
+  | .node _ sub => "$" ++ linkName ++ sub
   | .absent => "-"
-  | .tgt sub => "$" ++ linkName ++ sub
   | .lit s => s
+  | .any => "*"
 
-def Sem.render (k : KindSpec) (codes : List Nat) : Sem → String
-  | .const => "*"
-  | .fails => "!L"
-  | .on l outs => (outs.getD (codes.getD l 0) .err).render ((k.links.getD l ⟨"?", 0⟩).name)
+def renderRes (linkName : String) : Res Val → String
+  | .ok v => v.render linkName
+  | .error _ => "!L"
+
+/-- Name of the link an accessor reads (`""` when it reads none). -/
+def Sem.linkName (k : KindSpec) : Sem → String
+  | .on l _ => (k.links.getD l ⟨"?", 0⟩).name
+  | _ => ""
+
+def Sem.render (k : KindSpec) (σ : State) (sem : Sem) : String := renderRes (sem.linkName k) (sem.eval σ)
+
+/-- The state the sweep's `state <kind> <digits>` op names: link `i` in state `codes[i]` (targets anonymous). -/
+def State.ofCodes (codes : List Nat) : State := codes.map (fun c => { code := c })
 
 /-! ### The table -/
 
@@ -392,7 +406,7 @@ def allCodes : List LinkSpec → List (List Nat)
   | l :: rest => (List.range l.arity).flatMap (fun c => (allCodes rest).map (c :: ·))
 
 /-- The line the driver prints for one state: `acc=<outcome>` for every modelled accessor. -/
-def KindSpec.expected (k : KindSpec) (codes : List Nat) : List (String × String) :=
-  k.rows.map (fun r => (r.1, r.2.render k codes))
+def KindSpec.expected (k : KindSpec) (σ : State) : List (String × String) :=
+  k.rows.map (fun r => (r.1, r.2.render k σ))
 
 end Ipr.Outcome
